@@ -1113,6 +1113,19 @@ func (w *Worker) modelFor(fn *ssa.Function) *ssa.Function {
 		if hp := w.cur.Fn.Pkg; hp != nil {
 			m = hp.Func(name)
 		}
+	} else if recv := fn.Signature.Recv(); recv != nil && fn.Parent() == nil && fn.Synthetic == "" {
+		// a method: func vModel_<path with _>_<Type>_<Name>(recv, ...) (e.g. crypto/tls.Conn's I/O
+		// methods, whose bodies are cryptography the engine does not follow)
+		t := recv.Type()
+		if pt, ok := t.(*types.Pointer); ok {
+			t = pt.Elem()
+		}
+		if nt, ok := t.(*types.Named); ok {
+			name := "vModel_" + strings.NewReplacer("/", "_", ".", "_").Replace(fn.Pkg.Pkg.Path()) + "_" + nt.Obj().Name() + "_" + fn.Name()
+			if hp := w.cur.Fn.Pkg; hp != nil {
+				m = hp.Func(name)
+			}
+		}
 	}
 	w.models[fn] = m
 	return m
